@@ -302,6 +302,8 @@ func (e *Engine) lookupHarnessFunc(name string) *ssa.Function {
 // modelFuncs maps library functions to Go-source models in the harness prelude.
 var modelFuncs = map[string]string{
 	"encoding/binary.Read":      "vpmBinaryRead",
+	"strings.IndexAny":          "vpmIndexAny",
+	"strings.ContainsAny":       "vpmContainsAny",
 	"encoding/binary.Write":     "vpmBinaryWrite",
 	"fmt.Sprintf":               "vpmSprintf",
 	"fmt.Errorf":                "vpmErrorf",
